@@ -21,7 +21,7 @@ func init() { Register(c05{}) }
 func (c05) ID() string    { return "C05" }
 func (c05) Level() string { return "exploration" }
 func (c05) Rule() string {
-	return "wire class definitions derived from a Go struct type by permuting (all 120 permutations of 5 fields), dropping (every subset) and adding fields (0..3 extra fields at every insertion point with every value kind: int, string, chunked string, list, map, object, ref, null, double, binary), field names with lower- or upper-case first letter, placed at table position p in 0..40 reached three ways (earlier values on the same stream, earlier elements of an enclosing list, hoisted unused definitions), short form for p < 16 and long form 'O' for every p. Streams are built by the reference encoder. Oracle: expected Go value computed by the harness from (type, definition, values): wire value for every Go field named in the definition, zero otherwise; zoo.Equiv. Non-trivial = definition differs from the Go declaration order or p > 0; distinct by stream hash."
+	return "wire class definitions derived from a Go struct type by permuting (all 120 permutations of 5 fields), dropping (every subset) and adding fields (0..3 extra fields at every insertion point with every value kind: int, string, chunked string, list, map, object, ref, null, double, binary), field names with lower- or upper-case first letter, placed at table position p in 0..40 (and at 41..1025 around the one- and two-octet wrap points) reached four ways (earlier values on the same stream, earlier elements of an enclosing list, hoisted unused definitions), short form for p < 16 and long form 'O' for every p. Streams are built by the reference encoder. Oracle: expected Go value computed by the harness from (type, definition, values): wire value for every Go field named in the definition, zero otherwise; zoo.Equiv. Non-trivial = definition differs from the Go declaration order or p > 0; distinct by stream hash."
 }
 func (c05) ProcOpts() Proc { return Proc{RlimitAS: 4 << 30} }
 
@@ -56,6 +56,14 @@ type FRef struct {
 	N      int32
 }
 
+// FEmb: an embedded struct; its promoted field names (a, s) are NOT fields of FEmb on the wire, so a
+// wire field of that name has no Go counterpart and must be skipped
+type FEmb struct {
+	zoo.Inner
+	N    int32
+	Tail string
+}
+
 // FEmpty: a Go struct without fields; every wire field of its class is unknown and must be skipped
 type FEmpty struct{}
 
@@ -68,6 +76,7 @@ func (c05) Cases(tier string, seed int64, kf *KnownFindings) []Case {
 	add(Case{Kind: "drop", Seed: Mix(seed, 2), Count: 32})
 	add(Case{Kind: "extra1", Seed: Mix(seed, 3), Count: 6 * len(extraKinds)})
 	add(Case{Kind: "pos", Seed: Mix(seed, 4), Count: 41 * 4 * 2})
+	add(Case{Kind: "bigpos", Seed: Mix(seed, 7), Count: len(c05bigPos) * 4})
 	add(Case{Kind: "skipref", Seed: Mix(seed, 5), Count: 24})
 	add(Case{Kind: "dupdef", Seed: Mix(seed, 6), Count: 12})
 	n, per := 8, 100
@@ -80,7 +89,9 @@ func (c05) Cases(tier string, seed int64, kf *KnownFindings) []Case {
 	return cs
 }
 
-var extraKinds = []string{"int", "string", "chunked-string", "list", "map", "object", "ref", "null", "double", "binary", "long", "date", "typed-list", "bool", "double2", "double3", "double9", "double1", "long2", "long3", "int5"}
+var c05bigPos = []int{41, 64, 100, 254, 255, 256, 257, 271, 272, 511, 512, 513, 1023, 1024, 1025}
+
+var extraKinds = []string{"int", "string", "chunked-string", "list", "map", "object", "ref", "null", "double", "binary", "long", "date", "typed-list", "bool", "double2", "double3", "double9", "double1", "long2", "long3", "int5", "utf8-string", "utf8-medium", "long5", "long5neg"}
 
 type c05spec struct {
 	goType   reflect.Type
@@ -189,6 +200,10 @@ func (sp *c05spec) build() (stream []byte, reads int, pickLast bool, expect inte
 			fv.Set(reflect.ValueOf(sl))
 			av = l
 			typMap["[int32"] = reflect.TypeOf([]int32{})
+		case reflect.Struct:
+			in := zoo.Inner{A: int32(r.Intn(100)), S: "emb"}
+			fv.Set(reflect.ValueOf(in))
+			av = hspec.Object("test.Inner", []string{"a", "s"}, hspec.Int(in.A), hspec.String(in.S))
 		case reflect.Ptr:
 			in := &zoo.Inner{A: int32(r.Intn(100)), S: "in"}
 			fv.Set(reflect.ValueOf(in))
@@ -230,6 +245,14 @@ func (sp *c05spec) build() (stream []byte, reads int, pickLast bool, expect inte
 			av = hspec.Bool(true)
 		case "date":
 			av = hspec.Date(1500000000123)
+		case "utf8-string":
+			av = hspec.String("é世😀 x")
+		case "utf8-medium":
+			av = hspec.String(strings.Repeat("ß", 20) + strings.Repeat("世", 20) + "😀")
+		case "long5":
+			av = hspec.Long(1 << 20) // x59 + 4 octets
+		case "long5neg":
+			av = hspec.Long(-(1 << 28))
 		case "string":
 			av = hspec.String("extra")
 		case "chunked-string":
@@ -347,6 +370,7 @@ func (c05) Run(c Case, env *Env) Result {
 	var sharedSer hessian.Serializer
 	hows := []string{"stream", "list", "hoist", "hoist-reorder"}
 	tEmpty := reflect.TypeOf(FEmpty{})
+	tEmb := reflect.TypeOf(FEmb{})
 	for j := lo; j < hi; j++ {
 		if c.Kind == "skipref" || c.Kind == "dupdef" {
 			c05special(c, j, env, &res)
@@ -369,6 +393,13 @@ func (c05) Run(c Case, env *Env) Result {
 			sp.perm = []int{0, 1, 2, 3, 4}
 			sp.extras = []c05extra{{at: j / len(extraKinds), kind: extraKinds[j%len(extraKinds)]}}
 			feats = append(feats, "extra="+extraKinds[j%len(extraKinds)])
+		case "bigpos":
+			// class numbers beyond one octet (the statement says "any number of classes")
+			sp.perm = []int{0, 1, 2, 3, 4}
+			sp.p = c05bigPos[j%len(c05bigPos)]
+			sp.how = []string{"stream", "list", "hoist", "hoist-reorder"}[(j/len(c05bigPos))%4]
+			sp.long = true
+			feats = append(feats, "how="+sp.how, "class-number>40")
 		case "pos":
 			sp.perm = []int{0, 1, 2, 3, 4}
 			sp.p = j % 41
@@ -386,6 +417,9 @@ func (c05) Run(c Case, env *Env) Result {
 				if r.Intn(2) == 0 {
 					sp.goType = tEmpty // no Go fields at all: every wire field is an extra
 					feats = append(feats, "fieldless-go-struct")
+				} else {
+					sp.goType = tEmb
+					feats = append(feats, "embedded-struct")
 				}
 			}
 			nf := sp.goType.NumField()
@@ -420,6 +454,10 @@ func (c05) Run(c Case, env *Env) Result {
 						x.name = v
 						feats = append(feats, "extra-name-casefolds-onto-field")
 					}
+				}
+				if sp.goType == tEmb && r.Intn(2) == 0 && (ek == "string" || ek == "int" || ek == "object" || ek == "long" || ek == "utf8-string") {
+					x.name = []string{"a", "s", "A", "S"}[r.Intn(4)] // named like a field PROMOTED from the embedded struct
+					feats = append(feats, "extra-named-like-promoted-field")
 				}
 				sp.extras = append(sp.extras, x)
 				feats = append(feats, "extra="+ek)
@@ -535,8 +573,8 @@ func (c05) Run(c Case, env *Env) Result {
 			if sharedDec == nil {
 				// one complete type map for the whole batch, so that no Register* call is needed between streams
 				all := map[string]reflect.Type{"test.Inner": reflect.TypeOf(zoo.Inner{}), "[int32": reflect.TypeOf([]int32{}),
-					"test.Target.F5": t5, "test.Target.F3c": t3, "test.Target.FCase": tCase, "test.Target.FEmpty": tEmpty}
-				for i := 0; i <= 41; i++ {
+					"test.Target.F5": t5, "test.Target.F3c": t3, "test.Target.FCase": tCase, "test.Target.FEmpty": tEmpty, "test.Target.FEmb": tEmb}
+				for i := 0; i <= 1030; i++ {
 					all[fmt.Sprintf("test.Filler%02d", i)] = reflect.TypeOf(Filler{})
 				}
 				sharedDec = hessian.NewDecoder(nil, all)
